@@ -4,6 +4,7 @@ lemmas/Replace*.v; table regenerated into coq/gen/C15Table.v by harness/c15/extr
 import glob
 import json
 import os
+import re
 
 from harness import terms_family as tf
 from harness.lib import S, L, P, B as Bc
@@ -101,6 +102,8 @@ def _builtin_corpus():
         ("exists", ["exists", q1]),
         ("valuewrapper", ["vwterm", fa("x")]),
         ("attimezone", ["attz", fa("x"), "UTC"]),
+        ("interval-arith", ["arith", "add", fa("x"), ["interval", {"days": 1}], None]),
+        ("interval-compare", ["basic", "gt", fa("d"), ["arith", "sub", ["func", "NOW", [], None], ["interval", {"days": 1}], None], None]),
         ("values-field", ["values", fa("x")]),
         ("ch-length", ["ch_length", fa("p")]),
         ("set-operation", ["union", q1, {"from": [list(A)], "selects": [["field", "y", list(A), None]], "where": None}]),
@@ -134,6 +137,7 @@ def _builtin_corpus():
         ("updates", {"dialect": "generic", "mode": "update", "update": list(A), "sets": [[fa("c0"), ["arith", "add", fa("y"), one, None]]],
                      "joins": [["on", "", ["table", ["d", [], None]], ["basic", "eq", ["field", "k", ["d", [], None], None], ["field", "k", list(A), None], None]]]}),
         ("using-fields", dict(sel, **{"from": [["table", list(C)]], "selects": [fc], "joins": [["using_fields", "", ["table", ["d", [], None]], [fa("k")]]]})),
+        ("interval-select", dict(sel, selects=[["arith", "add", fa("x"), ["interval", {"days": 1}], None]])),
         ("ok-select", dict(sel, where=["basic", "eq", fa("y"), one, None], groupby=[fa("g")], having=["basic", "gt", ["func", "SUM", [fa("x")], None], one, None],
                            orderby=[[fa("o"), "DESC"]])),
         ("ok-star", dict(sel, star=list(A), selects=[fc])),
@@ -185,6 +189,9 @@ def run_impl(case):
     except Exception as e:  # noqa
         out["exc"] = type(e).__name__
         out["exc_at"] = list(ob.locate_exception(e))
+        m_ = re.search(r"'(\w+)' object has no attribute 'replace_table'", str(e))
+        if m_:      # a child without the method: name the child's class, whichever parent slot reached it
+            out["exc_at"] = [m_.group(1), "replace_table"]
         out["before_again"] = _texts(case, objA)
         return out
     out["before_again"] = _texts(case, objA)
